@@ -347,7 +347,9 @@ def typed_strategies():
     word = st.sampled_from(WORDS).map(lambda w: ['str', w])
     quotient = st.tuples(st.integers(1, 12), st.sampled_from([1, 2, 3, 4, 5, 8])).map(lambda t: ['par', ['bin', '/', ['num', str(t[0])], ['num', str(t[1])]]])
     piece = st.one_of(word, word, intexp, st.tuples(st.integers(0, 9), st.integers(1, 9)).map(lambda t: ['num', f'{t[0]}.{t[1]}']),
-                      boollit, quotient, st.sampled_from(['A5', 'A6']).map(lambda r: ['ref', r]))
+                      boollit, quotient, st.sampled_from(['A5', 'A6']).map(lambda r: ['ref', r]),
+                      st.one_of(boollit, st.sampled_from(['A5', 'A6']).map(lambda r: ['ref', r])).map(lambda x: ['un', '-', ['un', '-', x]]),
+                      st.one_of(boollit, intlit).map(lambda x: ['un', '+', x]))
     txt = st.recursive(piece, lambda ch: st.tuples(ch, ch).map(lambda t: ['bin', '&', t[0], t[1]]), max_leaves=4)
     wordsonly = st.recursive(word, lambda ch: st.tuples(ch, ch).map(lambda t: ['bin', '&', t[0], t[1]]), max_leaves=3)
     cmpop = st.sampled_from(F.CMP)
